@@ -44,6 +44,7 @@ TABLE_SPECIALS = [
     ">> [duplicate]: reference\n@a{1%g} and @a{2%g}\n",
     ">> [duplicate]: new\n@a{1%g} and @a{2%g}\n",
     ">> [mode]: text\nplain\n",
+    ">> [foo]: bar\n>> [mode]: nonsense\nText @a{1}.\n",
     "@eggs{2} @&eggs{1} @milk{1%l} @&milk{200%ml} @&milk{1%cup}\n",
 ]
 SHORT = ["", "@", "@a", "@a{", "@a{}", "@a{1}", "@a{1%", "#p{}", "~{1%h}", "~t{1}", ">> a: b", ">>", "---", "---\n---\n",
@@ -103,6 +104,39 @@ def make_inputs(tier, rng):
 
 def full_text(exe, line, mode="fresh"):
     return run_file(exe, [line], mode, env={"HIST_FULL": "1"})[0]
+
+
+def shrink(exe, lines, mode, want, max_trials=80):
+    """lines[-1] is the call whose result differs from `want` after the calls before it (same process, `mode`);
+    drop as many of the earlier calls as possible (ddmin, bounded)"""
+    last = lines[-1]
+
+    def fails(pref):
+        try:
+            return run_file(exe, pref + [last], mode)[-1] != want
+        except common.Broken:
+            return False
+
+    pref = lines[:-1]
+    if not pref or not fails(pref):
+        return lines
+    n, trials = 2, 0
+    while pref and trials < max_trials:
+        size = max(1, len(pref) // n)
+        removed = False
+        for st in range(0, len(pref), size):
+            cand = pref[:st] + pref[st + size:]
+            trials += 1
+            if fails(cand):
+                pref, n, removed = cand, max(n - 1, 2), True
+                break
+            if trials >= max_trials:
+                break
+        if not removed:
+            if size == 1:
+                break
+            n = min(len(pref), n * 2)
+    return pref + [last]
 
 
 def first_diff(a, b):
@@ -185,19 +219,23 @@ def run(rep, tier, seed):
         universe[k] = d
     # fresh converter + parser per call, but in a process that keeps running other calls (16 such processes):
     # separates state held by a parser value from state held by the process
-    fresh = common.run_lines(exe, [case_line(*k) for k in keys], env={"HIST_MODE": "fresh"}, tag="c18fresh")
+    nchunk = 16
+    csize = (len(keys) + nchunk - 1) // nchunk
+    chunks = [keys[i:i + csize] for i in range(0, len(keys), csize)]
+    with ThreadPoolExecutor(max_workers=common.NCPU) as ex:
+        fresh = list(ex.map(lambda ch: run_file(exe, [case_line(*k) for k in ch], "fresh"), chunks))
     n_proc_mismatch = 0
-    for k, d in zip(keys, fresh):
-        if d != universe[k]:
-            n_proc_mismatch += 1
-            if n_proc_mismatch <= 20:
-                line = case_line(*k)
-                hits.append((k[1], "op %s with a new parser in a process that ran other calls before differs from the "
-                                   "same call alone in a new process" % k[0],
-                             {"mode": "process", "case": line, "input": k[1], "input_hex": hx(k[1]), "op": k[0],
-                              "ext": k[2][0], "conv": k[2][1],
-                              "note": "the earlier calls of that process are the lines before this one in a 16-way split "
-                                      "of the reference set; replay compares spawn/spawn/fresh on the single call"}))
+    for ch, out in zip(chunks, fresh):
+        bad = [i for i, (k, d) in enumerate(zip(ch, out)) if d != universe[k]]
+        n_proc_mismatch += len(bad)
+        if bad:
+            i = bad[0]
+            k = ch[i]
+            lines = shrink(exe, [case_line(*x) for x in ch[:i + 1]], "fresh", universe[k])
+            hits.append((k[1], "op %s with a NEW parser, in a process that made %d other calls before, differs from the "
+                               "same call alone in a new process" % (k[0], len(lines) - 1),
+                         {"mode": "history", "submode": "fresh", "history": lines, "index": len(lines) - 1, "input": k[1],
+                          "input_hex": hx(k[1]), "op": k[0], "ext": k[2][0], "conv": k[2][1], "differing_calls": len(bad)}))
     stats["fresh_process_per_call"] = len(keys)
     stats["fresh_parser_shared_process_calls"] = len(keys)
 
@@ -209,8 +247,7 @@ def run(rep, tier, seed):
     def report_history(h, bad, label):
         i = bad[0]
         k = h[i]
-        lines = [case_line(*x) for x in h[:i + 1]]
-        # shrink: does the call alone on a reused parser already differ? then the prefix is irrelevant
+        lines = shrink(exe, [case_line(*x) for x in h[:i + 1]], "hist", universe[k])
         diff = None
         try:
             a = run_file(exe, lines, "hist", env={"HIST_FULL": "1"})[-1]
@@ -219,8 +256,8 @@ def run(rep, tier, seed):
         except common.Broken:
             pass
         hits.append((k[1], "%s: call %d (op %s) returns something else than a fresh parser in a fresh process"
-                     % (label, i, k[0]),
-                     {"mode": "history", "history": lines, "index": i, "input": k[1], "input_hex": hx(k[1]),
+                     % (label, len(lines) - 1, k[0]),
+                     {"mode": "history", "submode": "hist", "history": lines, "index": len(lines) - 1, "input": k[1], "input_hex": hx(k[1]),
                       "op": k[0], "ext": k[2][0], "conv": k[2][1], "differing_calls": len(bad), "diff": diff}))
 
     with ThreadPoolExecutor(max_workers=common.NCPU) as ex:
@@ -373,7 +410,7 @@ def replay(rp):
     exe = hist_exe(release=rp["replay"].get("build") == "release")
     r = rp["replay"]
     if r.get("mode") == "history":
-        a = run_file(exe, r["history"], "hist")[-1]
+        a = run_file(exe, r["history"], r.get("submode", "hist"))[-1]
         b = run_file(exe, [r["history"][-1]], "spawn")[0]
         print("history: %s  fresh process: %s" % (a, b))
         return 0 if a == b else 1
